@@ -323,25 +323,37 @@ func exec(r *mon.Run, e *env, c *Case) {
 	// the most specific (= longest) matching pattern owns the path, whether
 	// it is a mount's subtree or an extra handler's pattern
 	mpre, mok := mountFor(c.Patterns, c.URLPath)
-	for _, p := range c.Extra {
+	for _, pat := range c.Extra {
+		// ServeMux pattern grammar: [METHOD ][HOST]/[PATH]
+		pm, ph, p := splitPattern(pat)
 		own := c.URLPath == p || (strings.HasSuffix(p, "/") && strings.HasPrefix(c.URLPath, p))
+		if own && (pm != "" || ph != "") {
+			if (pm != "" && pm != c.Req.Verb) || (ph != "" && ph != "verif.test") {
+				// a qualified pattern that does not cover this request: what
+				// net/http does next (405, fall through to "/") is its
+				// business, not asserted here
+				r.Count("qualified_pattern_other_method_or_host_skipped", 1)
+				return
+			}
+		}
 		if own && mok && len(mpre)+1 > len(p) {
 			own = false // the mount's pattern is longer
 		}
 		if own {
-			for _, p2 := range c.Extra {
+			for _, pat2 := range c.Extra {
+				_, _, p2 := splitPattern(pat2)
 				if p2 != p && len(p2) > len(p) && (c.URLPath == p2 || (strings.HasSuffix(p2, "/") && strings.HasPrefix(c.URLPath, p2))) {
 					own = false // a longer extra pattern matches too
 				}
 			}
 		}
 		if own {
-			if mid != before || got.Code != 299 || got.Header.Get("X-Extra") != p {
-				r.Violate("extra-handler-not-served:"+c.Req.Kind, fmt.Sprintf("%s belongs to extra handler %s but got status %d (mux calls %d)", c.URLPath, p, got.Code, mid-before), c)
+			if mid != before || got.Code != 299 || got.Header.Get("X-Extra") != pat {
+				r.Violate("extra-handler-not-served:"+c.Req.Kind, fmt.Sprintf("%s belongs to extra handler %q but got status %d (mux calls %d)", c.URLPath, pat, got.Code, mid-before), c)
 			} else if seen := got.Header.Get("X-Extra-Path"); seen != decodedPath(c) {
-				r.Violate("extra-handler-saw-rewritten-path", fmt.Sprintf("extra handler %s was called for %s but saw URL path %q", p, c.URLPath, seen), c)
+				r.Violate("extra-handler-saw-rewritten-path", fmt.Sprintf("extra handler %q was called for %s but saw URL path %q", pat, c.URLPath, seen), c)
 			} else {
-				r.Distinct("extra:" + p)
+				r.Distinct("extra:" + pat)
 			}
 			return
 		}
@@ -381,6 +393,17 @@ func decodedPath(c *Case) string {
 		}
 	}
 	return c.URLPath
+}
+
+// splitPattern splits a ServeMux pattern "[METHOD ][HOST]/[PATH]".
+func splitPattern(pat string) (method, host, path string) {
+	if i := strings.IndexByte(pat, ' '); i >= 0 {
+		method, pat = pat[:i], strings.TrimLeft(pat[i+1:], " ")
+	}
+	if i := strings.IndexByte(pat, '/'); i > 0 {
+		host, pat = pat[:i], pat[i:]
+	}
+	return method, host, pat
 }
 
 func btoi(b bool) int {
@@ -474,6 +497,10 @@ func Run(r *mon.Run) {
 		if ci%4 == 0 {
 			more = append(more, setCfg{set: cfg.set, extra: cfg.extra, tls: true})
 		}
+		if ci%5 == 0 {
+			// host- and method-qualified patterns of the ServeMux grammar
+			more = append(more, setCfg{set: cfg.set, extra: []string{"verif.test/hosted/", "GET /status", "POST verif.test/hooks/in"}})
+		}
 	}
 	cfgs = append(cfgs, more...)
 	exec0 := exec
@@ -549,12 +576,17 @@ func Run(r *mon.Run) {
 				exec(r, e, &Case{Patterns: set, Extra: extra, URLPath: q.Path, Req: q})
 			}
 		}
-		for _, p := range extra {
+		for _, pat := range extra {
+			pm, _, p := splitPattern(pat)
 			u := p
 			if strings.HasSuffix(p, "/") {
 				u += "some/dir/file.txt"
 			}
-			exec(r, e, &Case{Patterns: set, Extra: extra, URLPath: u, Req: ReqSpec{Kind: "http", Verb: "GET", Path: u}})
+			verb := "GET"
+			if pm != "" {
+				verb = pm
+			}
+			exec(r, e, &Case{Patterns: set, Extra: extra, URLPath: u, Req: ReqSpec{Kind: "http", Verb: verb, Path: u}})
 		}
 	}
 	socketLane(r, e)
